@@ -1168,6 +1168,8 @@ class Frame:
     def _exec_for_body(self, s, st, elems):
         cur = st
         exited = []  # states that left the loop through `break` (in order): they skip the rest and the else clause
+        returned = []  # (state, outcome) of `return` inside a loop over a concrete sequence, in order
+        base_extra = []  # what the passes so far established for the paths that go on: no earlier return was taken
         for e in elems:
             skip = None
             if _maybe_absent(e):
@@ -1192,20 +1194,28 @@ class Frame:
                     self.I.notes.append("raise inside a loop of %s: %s" % (self.fi.qualname, oc[1]))
                 elif oc[0] == "break":
                     exited.append(st2)
+                elif oc[0] == "return" and self.I.loop_doms and self.I.loop_doms[-1] is None and not exited:
+                    # a loop over a concrete sequence (a literal table): each pass is a sequence of statements, and a
+                    # `return` in one of them ends the function in the scenarios of that path
+                    returned.append((st2, oc))
+                    extra = [g for g in st2.guards[len(st.guards):]]
+                    base_extra.append(g_not(g_and(extra)) if extra else FALSE)
                 else:
                     raise Unsupported("%s inside a loop of %s" % (oc[0], self.fi.qualname))
             if not cont:
                 if exited:
                     cur = None
                     break
+                if returned:
+                    return returned
                 raise Unsupported("loop body never completes in %s" % self.fi.qualname)
             cur = merge_states(cont, len(st.guards))
-            cur.guards = list(st.guards)
+            cur.guards = list(st.guards) + [g for g in base_extra if g != TRUE]
         tail = []
         if cur is not None:
             tail = self.exec_block(s.orelse, cur) if s.orelse else [(cur, ("fall",))]
         if not exited:
-            return tail
+            return returned + tail
         # ordered merge: the first break condition that holds wins, else the loop ran to its end
         falls = [t for t, oc in tail if oc[0] == "fall"]
         others = [(t, oc) for t, oc in tail if oc[0] != "fall"]
@@ -1422,7 +1432,16 @@ class Frame:
         if any(isinstance(x, (ast.Call,)) and not (_dotted(x.func) or "").split(".")[-1] in ("log", "exp", "log1p", "sqrt", "float", "int", "attrgetter", "itemgetter") for x in ast.walk(top[0].value)):
             return None
         callees = {id(c.func) for c in ast.walk(top[0].value) if isinstance(c, ast.Call)}
-        if any(isinstance(x, ast.Name) and id(x) not in callees and x.id not in ("np", "numpy", "math") and self.module_constant(module, x.id, depth + 1) is None for x in ast.walk(top[0].value) if not isinstance(x, ast.Attribute)):
+        def _names_a_definition(nm):
+            """An imported or module-level class / function: a table may list such objects by name."""
+            tgt_ = module.imports.get(nm)
+            prog_ = self.I.prog
+            if tgt_ and (tgt_ in getattr(prog_, "classes", {}) or tgt_ in getattr(prog_, "functions", {}) or prog_._resolve_dotted_class(tgt_) is not None or prog_._resolve_dotted_fn(tgt_) is not None):
+                return True
+            q_ = getattr(module, "name", "") + "." + nm
+            return q_ in getattr(prog_, "classes", {}) or q_ in getattr(prog_, "functions", {})
+
+        if any(isinstance(x, ast.Name) and id(x) not in callees and x.id not in ("np", "numpy", "math") and not _names_a_definition(x.id) and self.module_constant(module, x.id, depth + 1) is None for x in ast.walk(top[0].value) if not isinstance(x, ast.Attribute)):
             return None
         saved = self.module
         try:
@@ -1443,6 +1462,8 @@ class Frame:
                 xa = x.as_atom()
                 if xa is not None and xa[0] in ("attrgetter", "itemgetter"):
                     return True
+                if xa is not None and xa[0] == "g" and len(xa) == 2:
+                    return True  # a class / function of the program, named in a table
                 try:  # a closed term (log(1), exp(-2), inf ...): the same image under unrelated valuations
                     a, b = Valuation(0, salt="mc0").image(x.key()), Valuation(7, salt="mc1").image(x.key())
                     return a == b or (a != a and b != b)
